@@ -92,7 +92,7 @@ def run_one(entry, prefix, execute):
     err, probs = closure.analyse(text, closure.supplied_from_yaml(entry["yaml"]))
     ranks_ = [r for rs in entry["yaml"]["einsum"]["declaration"].values() for r in rs]
     probs = [p for p in probs if not (p.site.startswith("iterRangeShapeRef") and p.name[-1:].isdigit())   # F1, F17: see C06 / C16
-             and not closure.is_flattened_name(p.name, ranks_)] (see C06)
+             and not closure.is_flattened_name(p.name, ranks_)]
     if err or probs:
         res["viol"] = "emitted text of this order is not closed: %s\n--- emitted program ---\n%s" % (err or probs[:3], text)
         res["kind"] = "not-closed"
